@@ -23,9 +23,9 @@ META = {
         "distinct = distinct (country, seed, mode, pins) draws judged"
     ),
     "assumptions": ["pins shorter/longer/wrong-class are executed under the totality monitor only", "national_checksum_digits pinned only where no computing algorithm exists"],
-    "min_distinct": {"quick": 5000, "thorough": 200000},
+    "min_distinct": {"quick": 5000, "thorough": 150000},
 }
-SIZES = {"quick": dict(seeds=14, pin_draws=22, battery=4), "thorough": dict(seeds=300, pin_draws=400, battery=40)}
+SIZES = {"quick": dict(seeds=24, pin_draws=30, battery=6), "thorough": dict(seeds=1000, pin_draws=400, battery=100)}
 HASHSEEDS = {"quick": ["0", "1", "4242"], "thorough": ["0", "1", "2", "7", "4242", "99999", "123456789", "random"]}
 
 
